@@ -292,39 +292,130 @@ def tr_count_idiom(toks, rel, lets):
     return f"([{', '.join(exprs)}].filter id).length > {m.group(2)}"
 
 
-def tr_block(nodes, rel, lets, indent):
-    """-> list of Lean lines ending with the pair (fl, m)"""
-    pad = "  " * indent
-    out = []
+def assigned(nodes):
+    """which of the two state variables (fl, m) a block assigns"""
+    out = set()
+    for n in nodes:
+        if isinstance(n, Stmt):
+            s = text_of(n.toks)
+            if re.fullmatch(r"self . (\w+) . enabled = true ;", s):
+                out.add("fl")
+            elif re.fullmatch(r"self . (\w+) . mode = (\w+) :: (\w+) ;", s):
+                out.add("m")
+        elif isinstance(n, If):
+            out |= assigned(n.then) | assigned(n.els)
+    return out
+
+
+def tr_value(nodes, var, rel, lets):
+    """the value of state variable `var` after executing the block (an expression over the current fl / m)"""
+    steps = []
     for n in nodes:
         if isinstance(n, Stmt):
             s = text_of(n.toks)
             m = re.fullmatch(r"self . (\w+) . enabled = true ;", s)
             if m:
                 f = FIELD_FLAG[m.group(1)]
-                out.append(f"{pad}let fl := if fl.contains .{f} then fl else fl ++ [.{f}]"); continue
+                steps.append(f"(if fl.contains .{f} then fl else fl ++ [.{f}])"); continue
             m = re.fullmatch(r"self . (\w+) . mode = (\w+) :: (\w+) ;", s)
             if m:
                 f = FIELD_FLAG[m.group(1)]
-                out.append(f"{pad}let m := {{ m with {MODE_FIELD[f]} := .{MODE_VARIANT[m.group(3)]} }}"); continue
+                steps.append(f"{{ m with {MODE_FIELD[f]} := .{MODE_VARIANT[m.group(3)]} }}"); continue
+            err(rel, n.line, f"unrecognised statement in resolve_auto: `{s}`")
+        elif isinstance(n, If):
+            c = tr_count_idiom(n.cond, rel, lets) or tr_expr(n.cond, rel, lets)
+            t = tr_value(n.then, var, rel, lets)
+            e = tr_value(n.els, var, rel, lets) if n.els else var
+            steps.append(f"(if {c} then {t} else {e})")
+        else:
+            err(rel, n.line, "unsupported construct in resolve_auto")
+    if not steps:
+        return var
+    if len(steps) == 1:
+        return steps[0]
+    return "(" + " ".join(f"let {var} := {st};" for st in steps) + f" {var})"
+
+
+def mode_fields_assigned(nodes):
+    out = set()
+    for n in nodes:
+        if isinstance(n, Stmt):
+            m = re.fullmatch(r"self . (\w+) . mode = (\w+) :: (\w+) ;", text_of(n.toks))
+            if m:
+                out.add(MODE_FIELD[FIELD_FLAG[m.group(1)]])
+        elif isinstance(n, If):
+            out |= mode_fields_assigned(n.then) | mode_fields_assigned(n.els)
+    return out
+
+
+def tr_field_value(nodes, field, rel, lets):
+    """value of mode field `field` after the block, as an expression over the ORIGINAL modes `m`.
+    Sound because (checked) the conditions on the way read no mode field other than `field` itself."""
+    if not nodes:
+        return f"m.{field}"
+    if len(nodes) != 1:
+        err(rel, nodes[0].line, "several statements assign one mode in sequence")
+    n = nodes[0]
+    if isinstance(n, Stmt):
+        m = re.fullmatch(r"self . (\w+) . mode = (\w+) :: (\w+) ;", text_of(n.toks))
+        if not m:
+            err(rel, n.line, "unrecognised statement in resolve_auto")
+        return "." + MODE_VARIANT[m.group(3)]
+    if isinstance(n, If):
+        c = tr_expr(n.cond, rel, lets)
+        for other in re.findall(r"\bm\.(\w+)", c):
+            if other != field:
+                err(rel, n.line, f"the choice of `{field}` reads another feature's mode (`{other}`)")
+        return f"(if {c} then {tr_field_value(n.then, field, rel, lets)} else {tr_field_value(n.els, field, rel, lets)})"
+    err(rel, n.line, "unsupported construct in resolve_auto")
+
+
+def tr_block(nodes, rel, lets, indent):
+    """top level of resolve_auto: `let fl := …`, `let name := …`, and one expression per mode field"""
+    pad = "  " * indent
+    out = []
+    fields = {}
+    for n in nodes:
+        if isinstance(n, Stmt):
+            s = text_of(n.toks)
             m = re.fullmatch(r"let (\w+) = (.*) ;", s)
             if m:
                 lets.add(m.group(1))
                 out.append(f"{pad}let {m.group(1)} := {tr_expr(n.toks[3:-1], rel, lets)}"); continue
+            if assigned([n]) == {"fl"}:
+                if fields:
+                    err(rel, n.line, "a flag is set after a mode was chosen")
+                out.append(f"{pad}let fl := {tr_value([n], 'fl', rel, lets)}"); continue
             err(rel, n.line, f"unrecognised statement in resolve_auto: `{s}`")
         elif isinstance(n, If):
-            c = tr_count_idiom(n.cond, rel, lets) or tr_expr(n.cond, rel, lets)
-            out.append(f"{pad}let (fl, m) := if {c} then")
-            out += tr_block(n.then, rel, set(lets), indent + 2)
-            out.append(f"{pad}  else")
-            if n.els:
-                out += tr_block(n.els, rel, set(lets), indent + 2)
+            a = assigned([n])
+            if a == {"fl"}:
+                if fields:
+                    err(rel, n.line, "a flag is set after a mode was chosen")
+                out.append(f"{pad}let fl := {tr_value([n], 'fl', rel, lets)}")
+            elif a == {"m"}:
+                fs = mode_fields_assigned([n])
+                if len(fs) != 1:
+                    err(rel, n.line, f"one branch chooses several modes: {sorted(fs)}")
+                f = fs.pop()
+                if f in fields:
+                    err(rel, n.line, f"mode `{f}` is chosen twice")
+                fields[f] = tr_field_value([n], f, rel, lets)
             else:
-                out.append(f"{pad}    (fl, m)")
+                err(rel, n.line, "a branch of resolve_auto assigns both flags and modes (or neither)")
         else:
             err(rel, n.line, "unsupported construct in resolve_auto")
-    out.append(f"{pad}(fl, m)")
-    return out
+    lit = ", ".join(f"{f} := {fields.get(f, 'm.' + f)}" for f in ("asStr", "fromStrFn", "fromStrTrait", "iter"))
+    flag_lines = [l for l in out if l.strip().startswith("let fl :=")]
+    let_lines = [l for l in out if not l.strip().startswith("let fl :=")]
+    res = ["/-- the flags `resolve_auto` sets -/", "def autoFlags (sh : Shape) (fl : Flags) (m : Modes) : Flags :="]
+    res += flag_lines + [f"{pad}fl", "",
+                         "/-- the modes `resolve_auto` picks, given the flags as they are after `autoFlags` -/",
+                         "def autoModes (sh : Shape) (fl : Flags) (m : Modes) : Modes :="]
+    res += let_lines + [f"{pad}{{ {lit} }}", "", "/-- `resolve_auto` -/",
+                        "def resolveAuto (sh : Shape) (fl : Flags) (m : Modes) : Flags × Modes :=",
+                        f"{pad}let fl := autoFlags sh fl m", f"{pad}(fl, autoModes sh fl m)"]
+    return res
 
 
 def gen_resolve(src):
@@ -362,7 +453,7 @@ def gen_resolve(src):
     L += ["]", "", "def aborts : List AbortRule := ["]
     L.append(",\n".join(f"  {{ src := .{o}, guard := {fmt_guard(p)}, unlessFlag := {('some .' + u) if u else 'none'}, err := {e} }}"
                         for o, p, u, e in aborts))
-    L += ["]", "", "/-- `resolve_auto` -/", "def resolveAuto (sh : Shape) (fl : Flags) (m : Modes) : Flags × Modes :="]
+    L += ["]", ""]
     L += auto_lines
     L += ["", "end ET.Generated", ""]
     return "\n".join(L), {"rules": len(merged), "aborts": len(aborts), "check_order": order}
